@@ -4,6 +4,7 @@ mod fam_be;
 mod fam_conc;
 mod fam_dmn;
 mod fam_fe;
+mod fam_gpu;
 mod fam_kern;
 mod fam_proxy;
 mod fam_race;
@@ -38,6 +39,7 @@ fn run_case(c: &Val) -> Val {
         "kern" => fam_kern::run(args),
         "race" => fam_race::run(args),
         "conc" => fam_conc::run(args),
+        "gpu" => fam_gpu::run(args),
         "iovs" => {
             let lens: Vec<usize> = args[0].as_l().unwrap_or(&[]).iter().map(|v| v.as_u64().unwrap_or(0) as usize).collect();
             let skip = args[1].as_u64().unwrap_or(0) as usize;
